@@ -8,9 +8,11 @@ import (
 	"os"
 	"runtime/debug"
 	"sort"
+	"strings"
 
 	"verif/sa/internal/checks"
 	"verif/sa/internal/core"
+	"verif/sa/internal/tf"
 )
 
 func usage() {
@@ -41,6 +43,12 @@ func main() {
 		tier := fs.String("tier", envOr("VERIF_TIER", "quick"), "quick|thorough")
 		_ = fs.Parse(os.Args[3:])
 		os.Exit(run(id, *tier))
+	case "term":
+		// debugging aid: sa term <rel-pkg> <Type.Method|Func>
+		if len(os.Args) < 4 {
+			usage()
+		}
+		os.Exit(dumpTerms(os.Args[2], os.Args[3]))
 	case "explain":
 		if len(os.Args) < 3 {
 			usage()
@@ -97,4 +105,38 @@ func run(id, tier string) (code int) {
 	rep.Prog = prog
 	chk.Run(prog, rep)
 	return rep.Finish()
+}
+
+func dumpTerms(rel, name string) int {
+	prog, err := core.Load(core.LoadOpts{})
+	if err != nil {
+		fmt.Fprintln(os.Stderr, err)
+		return 2
+	}
+	if rel == "." {
+		rel = ""
+	}
+	var fn = prog.Func(rel, name)
+	if i := strings.Index(name, "."); i >= 0 {
+		fn = prog.Method(rel, name[:i], name[i+1:])
+	}
+	if fn == nil {
+		fmt.Fprintln(os.Stderr, "function not found")
+		return 2
+	}
+	eng := tf.NewEngine(core.InRepo, 4)
+	ev := eng.NewEval(fn)
+	fmt.Println("RETURN:", ev.Resolve(ev.Return()))
+	for _, e := range ev.Events() {
+		on, inLoop := e.OnEveryPathToReturn()
+		fmt.Printf("EVENT %s every-path=%v in-loop=%v: %s\n", prog.Pos(e.Instr.Pos()), on, inLoop, ev.Resolve(e.Term))
+	}
+	for _, l := range eng.Loops(fn) {
+		if l.IV != nil {
+			fmt.Printf("LOOP %s: init=%s step=%d cond=(iv%+d %s %s) exitsOK=%v\n", l.ID(), l.Init, l.Step, l.TestOff, l.CondOp, l.Bound, l.ExitsOK)
+		} else {
+			fmt.Printf("LOOP %s: no induction variable\n", l.ID())
+		}
+	}
+	return 0
 }
